@@ -71,14 +71,14 @@ Theorem c09_no_reuse_partial : forall s i t t' r,
   offer_nowrap s = true ->
   nth_error (trs s) i = Some t -> t_mid t = "" ->
   nth_error (trs (offer_alloc s)) i = Some t' ->
-  In r (remote_secs (cur_remote s)) -> t_mid t' <> r_mid r.
-Proof. exact fresh_mid_not_in_current_remote_lemma. Qed.
+  In r (remote_secs (cur_remote s)) \/ In r (remote_secs (pend_remote s)) -> t_mid t' <> r_mid r.
+Proof. exact fresh_mid_not_in_remote_lemma. Qed.
 Print Assumptions c09_no_reuse_partial.
 
 (* ... and, in histories inside C06's numbering guard, from every other
    transceiver's mid at every point of the history *)
 Theorem c09_no_reuse_among_transceivers_partial : forall ops,
-  remote_ok ops -> numbering_ok_all ops ->
+  remote_ok ops -> nowrap_all ops ->
   forall s o out s', In (s, o, out, s') (trace ops) ->
   NoDup (set_mids (trs s)) /\ NoDup (set_mids (trs s')).
 Proof. exact trace_mids_distinct. Qed.
@@ -105,12 +105,6 @@ Theorem c09_refuted_local_data_mid :
     [[(KApplication, Some "0")]; [(KAudio, Some "0"); (KApplication, Some "1")]].
 Proof. exact wit_c09_local_data. Qed.
 Print Assumptions c09_refuted_local_data_mid.
-
-(* (3): with a remote offer [40, 41] pending, the fresh mid is "41" *)
-Theorem c09_refuted_pending_remote_mid :
-  gen_kind_mids wit_pending = [[(KAudio, Some "40"); (KVideo, Some "41")]].
-Proof. exact wit_c09_pending. Qed.
-Print Assumptions c09_refuted_pending_remote_mid.
 
 Example c09_partial_nontrivial :
   exists d rd, snd (create_offer st_reneg) = Ok d /\ offer_remote (offer_alloc st_reneg) = Some rd /\
